@@ -456,6 +456,16 @@ def install(I):
         n = a[0]
         return NArr(n if isinstance(n, int) else B.zint(n), lambda i: B.wrap(B._z(i)), dtype_tag(I, dtype) or "int", "arange")
 
+    @ext("logical_and")
+    def _land(ctx, a, b):
+        n, elem = lift(I, ctx, lambda x, y: B.wrap(z3.And(B.zbool(x), B.zbool(y))), a, b)
+        return NArr(n, elem, "bool", "and")
+
+    @ext("logical_or")
+    def _lor(ctx, a, b):
+        n, elem = lift(I, ctx, lambda x, y: B.wrap(z3.Or(B.zbool(x), B.zbool(y))), a, b)
+        return NArr(n, elem, "bool", "or")
+
     @ext("logical_not")
     def _lnot(ctx, a):
         return NArr(a.n, lambda i: B.wrap(z3.Not(B.zbool(a.elem(i)))), "bool", "not")
